@@ -39,6 +39,8 @@ pub struct ChanScen {
     pub n_rx: u8,
     /// threads[0] is the model's main thread
     pub threads: Vec<ThreadProg>,
+    /// values put into the channel by the main thread (try_send on S0) before any thread is spawned
+    pub prefill: Vec<Id>,
     /// some receiver keeps receiving until Disconnected and no receiver handle is dropped early:
     /// every value whose send returned Ok must be received
     pub drains: bool,
@@ -117,10 +119,13 @@ fn run_thread(t: u8, prog: ThreadProg, mut tx: Option<Box<dyn Tx>>, mut rx: Opti
             Step::DrainTry => {
                 let r = rx.as_mut().expect("rx");
                 let mut got = 0;
+                let mut last_empty = false;
                 loop {
                     rt::log_call(t, rh, &Op::TryRecv);
                     let res = r.try_recv();
-                    let outcome = res != Res::Empty;
+                    // consecutive Empty answers count once in the observable outcome
+                    let outcome = !(res == Res::Empty && last_empty);
+                    last_empty = res == Res::Empty;
                     let res2 = res.clone();
                     rt::log_ret(t, rh, &Op::TryRecv, res, outcome);
                     match res2 {
@@ -178,6 +183,12 @@ pub fn run_once(sc: &ChanScen, shape: &str) {
     }
     txs.insert(0, Some(tx0));
     rxs.insert(0, Some(rx0));
+    for &id in &sc.prefill {
+        let op = Op::TrySend(id);
+        rt::log_call(0, 0, &op);
+        let r = txs[0].as_mut().unwrap().try_send(P::new(id));
+        rt::log_ret(0, 0, &op, r, true);
+    }
     // distribute the handles, drop the ones no thread owns (they would keep the channel open), then spawn
     let mut owned: Vec<(Option<Box<dyn Tx>>, Option<Box<dyn Rx>>)> = Vec::new();
     for prog in sc.threads.iter() {
